@@ -1083,7 +1083,38 @@ def r23(ctx):
                 ctx.note('C14.R23: m_infoLen = 0 in %s line %d leaves m_infoPos as it is' % (fn.name, fn.line_of(nid)))
 
 
+def r24(ctx):
+    ctx.rule('C14.R24', 'an arbitration that is over is over in both members: in the device classes every store that withdraws the '
+             'arbitration address (m_arbitrationMaster = SYN) is followed on every path to the end of its function by the '
+             'reset of the check counter (m_arbitrationCheck = 0), or is reached only with the counter being 0 - a counter '
+             'left non-zero after the protocol layer withdrew an arbitration (startArbitration(SYN), no state pointer) makes '
+             'the next arbitration start answer "arbitration running" and write nothing', minimum=5)
+    fb = ctx.fb
+    n = 0
+    for fn in fb.functions:
+        if not fn.blocks or fn.relfile not in ('src/lib/ebus/device_trans.cpp', 'src/lib/ebus/device_trans.h', 'src/lib/ebus/device.cpp', 'src/lib/ebus/device.h'):
+            continue
+        asg = list(fn.assignments())
+        resets = set(nid for nid, d, rhs, op, lhs in asg if lhs is not None and fn.key(lhs) == 'this.m_arbitrationCheck' and
+                     op == '=' and rhs is not None and fn.val(rhs) == 0)
+        for nid, d, rhs, op, lhs in asg:
+            if lhs is None or fn.key(lhs) != 'this.m_arbitrationMaster' or op != '=' or rhs is None or fn.val(rhs) != 170:
+                continue
+            n += 1
+            ctx.touch(fn)
+            b, i = fn.pos(nid)
+            after = fn.exit is not None and not fn.reaches_point(b, (fn.exit, 0), resets, start_idx=i + 1)
+            zero = fn.needs_one_of(nid, [('this.m_arbitrationCheck', False), ('(this.m_arbitrationCheck == #0)', True),
+                                         ('(this.m_arbitrationCheck <= #0)', True), ('(this.m_arbitrationCheck < #1)', True)])
+            ok = after or zero
+            ctx.ob('C14.R24', fn, nid, ok, 'arbitration withdrawn in %s' % fn.name.split('::', 1)[-1],
+                   'check counter reset on every path behind it: %s; reached only with the counter 0: %s' % (after, zero))
+    if n < 5:
+        raise AnalysisBroken('C14.R24: only %d stores m_arbitrationMaster = SYN found' % n)
+
+
 def run(ctx):
+    r24(ctx)
     r23(ctx)
     r21(ctx)
     r22(ctx)
